@@ -210,6 +210,32 @@ def exec_ops(case, ops, op_timeout=60, emit=None):
                     signal.alarm(0)
                     rec["status"] = "returned"
                     rec["mismatch"] = {k: [str(x) for x in v] for k, v in r.items()}
+                elif kind == "cnf":
+                    from sweetpea._internal.server import build_cnf
+                    with ir.quiet():
+                        failed = built.block.show_errors()
+                        cnf = build_cnf(built.block)
+                    signal.alarm(0)
+                    cls = [[int(v) for v in cl] for cl in cnf]
+                    rec["status"] = "returned"
+                    rec["clauses"] = cls
+                    rec["support"] = built.block.variables_per_sample()
+                    rec["declared"] = cnf._num_vars
+                    rec["maxvar"] = max([abs(l) for cl in cls for l in cl] + [0])
+                    rec["errors"] = bool(failed)
+                elif kind == "decode":
+                    from sweetpea._internal.sampling_strategy.base import Gen
+                    exps = []
+                    for m in op["models"]:
+                        with ir.quiet():
+                            e = Gen.decode(built.block, list(m))
+                            e = built.block.add_implied_levels(e)
+                            e = {k: v for k, v in e.items() if not isinstance(k, ir.HiddenName)}   # as synthesize_trials does
+                        exps.append(ir.encode_experiment(case, e))
+                    signal.alarm(0)
+                    rec["status"] = "returned"
+                    rec["exps"] = exps
+                    rec["count"] = len(exps)
                 elif kind == "drawtree":
                     rec.update(_drawtree(built, case, op.get("max_leaves", 4000)))
                     signal.alarm(0)
